@@ -28,7 +28,11 @@ package main
 //     the conditions enclosing the call of c.config.VerifyConnection there;
 //     resServerPeerWriters: the functions of handshake_server.go that assign c.peerCertificates;
 //     resSessionPeerExpr: what createSessionState records as peerCertificates, and
-//     resFullRecordsPeer: doFullHandshake sets hs.peerCertificates = c.peerCertificates.
+//     resFullRecordsPeer: doFullHandshake sets hs.peerCertificates = c.peerCertificates;
+//   - resOfferedIdReaders: the functions of handshake_server.go that read the session identifier
+//     OFFERED by the client (`….clientHello.sessionId`, directly or through a local alias) — the
+//     identifier is opaque SessionID<0..32>: it is a cache key (checkForResumption) and is echoed
+//     (doResumeHandshake), nothing else may look at it, its length in particular.
 
 import (
 	"go/ast"
@@ -44,7 +48,7 @@ func init() {
 			"clientHandshakeState.processServerHello", "clientHandshakeState.serverResumedSession",
 			"clientHandshakeState.createNewSession", "serverHandshakeState.handshake",
 			"serverHandshakeState.checkForResumption", "serverHandshakeState.doResumeHandshake",
-			"serverHandshakeState.createSessionState")
+			"serverHandshakeState.createSessionState", "serverHandshakeState.processClientHello")
 	}
 }
 
@@ -447,4 +451,31 @@ func emitResumption(e *emitter, p *pkg) {
 		})
 	}
 	e.boolean("resFullRecordsPeer", records)
+	// who reads the session identifier offered by the client on the server side
+	var readers []string
+	for key, fd := range p.funcs {
+		if fd.Body == nil || !strings.HasSuffix(p.fset.Position(fd.Pos()).Filename, "handshake_server.go") {
+			continue
+		}
+		reads := false
+		ast.Inspect(fd.Body, func(n ast.Node) bool {
+			if se, ok := n.(*ast.SelectorExpr); ok && se.Sel.Name == "sessionId" {
+				switch x := se.X.(type) {
+				case *ast.SelectorExpr:
+					reads = reads || x.Sel.Name == "clientHello"
+				case *ast.Ident:
+					reads = reads || x.Name == "clientHello"
+				}
+			}
+			return true
+		})
+		if reads {
+			readers = append(readers, key)
+		}
+	}
+	sort.Strings(readers)
+	e.strList("resOfferedIdReaders", readers)
+	if len(readers) == 0 {
+		miss("resOfferedIdReaders")
+	}
 }
